@@ -96,6 +96,55 @@ constructs (constructor state as locals with `super().__init__()` inlined, strat
 decided by the declared type of the specialisation, `x is None` on optional values, general `try / except / else` as a match on the
 outcome, unrolled `for` over a literal tuple, the socket back-end as a leading parameter `be`).  Hooks here: Fn.prepare,
 Fn.initial_env, fn_class, UNIT_SEES / BY_OUT (an earlier unit over the same file whose definitions a unit may call).
+
+SRCE (class FnE, used only by the units of SRCE_UNITS -- the non-constructor functions of netaddr/ip/__init__.py; everything FnE does
+not recognise goes to the base class unchanged; trusted input: SRCE_UNITS, SRCE_TYPES, SRCE_LOCALS, MODULE_FUNCS, the FUEL entry of
+cidr_merge, the preludes Model/SrcPreludeSRCE.v / SrcPreludeMerge.v / SrcPreludeMatch.v / SrcPreludeCmp.v / SrcPreludeViews.v):
+* pysrc_merge_gen.v (C05: IPRange.cidrs, cidr_merge).  A parameter declared `list mitem` is a list of IPNetwork or IPRange objects
+  (Model/Merge.v mitem = MNet net | MRange version start end; `IPNetwork(ip)` of anything else is the constructors' business):
+  `isinstance(x, C)` / `isinstance(x, (C, D))` on such an object is decided where the declared type decides it and is a `match` on
+  the constructor otherwise (inside the arms x is an IPNetwork-valued variable / a refined IPRange operand); `x.attr` for a property
+  both classes have is that match over the two translated properties.  A tuple (int, int, int) or (int, int, int, object) is a
+  Merge.rtuple = Z * Z * Z * option mitem: `t[0]`, `t[1]`, `t[2]` are the projections, `if len(t) == 4:` is `match snd t with
+  Some o => .. | None => ..` and `t[3]` is o inside its first arm.  `l[e]` for a computed int e = py_index (IndexError; a negative
+  index counts from the end), `l[e] = x` = py_setitem (value first, then index), `del l[e]` = py_delitem, `l.extend(m)` = l ++ m,
+  `l.sort()` on range tuples = py_sort_ranges (NOT translated: the hand model Merge.rt_sort).  `a and b` / `a or b` whose later
+  operands can raise = `if a then (do ..; Ok b) else Ok false` (short circuit, in `outcome`).  An IPAddress object passed where the
+  callee declares an IPNetwork = py_net_of_addr (IPNetwork(<IPAddress>): its host network).  `x.m(..)` on an IPNetwork-valued
+  variable or a refined operand = the translated method m of its class.
+* generators (pysrc_subnet_gen.v C11: IPNetwork.subnet; pysrc_iter_gen.v C10: iter_iprange).  `def g(..): <prologue>; while c: <body>;
+  yield e` (one yield, the last statement of the loop, which is the last statement of the function; no loop / continue / return /
+  try inside) is listed twice, as "g:start" and "g:next", and becomes two definitions: src_g_start = the prologue, returning the
+  tuple of the locals the loop reads, in the order of their first read (`Ok None` for a bare `return`: the generator yields
+  nothing); src_g_next <state> = one resumption: `if c then <body>; Ok (Some (e, <state>)) else Ok None`, a `break` = `Ok None`, an
+  exception of the body = Raise.  SrcPreludeSRCE.py_gen_take is list(islice(g, n)) of the two pieces.  State variables are
+  ints, bools, IPNetwork objects or address texts.  A parameter declared `obj` is an IPAddress object (version, value);
+  `IPAddress(x)` of such an x is a copy (the same pair); `x.version`, `x._value`, `int(x)` read it.
+* pysrc_subnet_gen.v also: `self._module.int_to_str(e)` is kept as the integer e it is the text of (type ipstr);
+  `self.__class__('%s/%d' % (a, p), version)` for an IPAddress object or such a text a = py_net_of_cidr_text (NOT translated: the
+  hand model Subnet.net_of_cidr_str of the text round trip; for an IPAddress a of another family: Raise Unsupported); on that new
+  object, which nobody else can see, `x.value += e` / `x.prefixlen = e` call the translated setter of the property
+  (`name = property(lambda self: self._f, <setter>)`) and `x += n` / `x -= n` the translated __iadd__ / __isub__ (record updates);
+  `if count is None: count = <int>` for an `optint` parameter; `a // k ** e` (a positive literal k: the divisor is never 0).
+* pysrc_iter_gen.v / pysrc_match_gen.v: "m:mixin" = the definition of IPListMixin itself for a receiver class that overrides m.
+* pysrc_match_gen.v (C04: the three matching functions): `[IPNetwork(x) for x in xs]` for IPNetwork-valued xs = xs (copies);
+  `sorted(l)` for IPNetwork objects = py_sorted_nets (NOT translated: the hand model Contains.py_sorted over BaseIP.__lt__);
+  `x in y` / `x not in y` for an IPNetwork-valued y = its translated __contains__ on the operand (OAddr .. / ONet ..);
+  an IPAddress object read inside a loop is carried as its pair; a local declared in SRCE_LOCALS as `optnet` starts as None and is
+  assigned IPNetwork objects (option net): `x is not None and <e>` = `match x with Some h => <e with x := h> | None => Ok false end`.
+* pysrc_cmp_gen.v (C12: BaseIP.__eq__ .. __ge__, __hash__, IPRange.sort_key): `try: return <e> / except (AttributeError, ..): return
+  NotImplemented` where <e> reads one `operand` parameter = a match on the operand kind whose three BaseIP arms are <e> -- accepted
+  only if <e> is translated there without anything that can raise, so that the handler is dead -- and whose OOther arm is `Raise
+  Unsupported` (the method answers NotImplemented and Python tries the reflected operation: out of scope).  `t1 <op> t2` for two
+  tuples of ints (results of key() / sort_key()) = py_tuple_<op> (Order.tuple_cmp); `num_bits(e)` imported from netaddr.core =
+  py_num_bits (Order.num_bits; core_num_bits_ok() checks that core.py still says `return int_val.bit_length()`); `hash(t)` = `hash_ t`
+  where hash_ : list Z -> Z becomes a PARAMETER of the generated definition (CPython's tuple hash is not modelled).
+* pysrc_ipviews_gen.v (C15 / C14: IPAddress.bits bin words packed reverse_dns __bytes__ __hex__): `self._module.<f>(..)` for the
+  functions of MODULE_FUNCS = the symbol py_mod_<f> version .. (NOT translated: the hand model of the strategy module's function,
+  Model/Codec.v, by version); `v.to_bytes(n, 'big')` = py_int_to_bytes; `'<text>%x' % e` = py_fmt_hex; a parameter declared `optstr`
+  (None or text) may only be passed on.
+Not translated: iter_unique_ips (nested `for` with `yield`, and no hand model function), the abstract BaseIP.key / sort_key
+(`return NotImplemented`: no model counterpart), IPAddress.__oct__ (no model), the alias __bool__ = __nonzero__.
 """
 import ast
 import os
@@ -244,6 +293,52 @@ UNITS += CTOR_UNITS
 FILES = FILES + CTOR_FN_UNITS
 UNIT_SEES = {"pysrc_parse_gen.v": ("pysrc_ctor_gen.v",)}     # unit -> earlier units over the same source file whose definitions it may call
 BY_OUT = {}                             # output file -> its translator (filled by Translator.__init__)
+# ---- SRCE: the non-constructor functions of netaddr/ip/__init__.py (units translated by class FnE below; see the docstring
+# paragraph "SRCE").  Every unit listed in SRCE_FILES uses FnE (table FN_CLASS, filled after the class).
+SRCE_UNITS = [
+    # C05: IPRange.cidrs, cidr_merge (items: IPNetwork or IPRange objects = Merge.mitem; the range tuples = Merge.rtuple)
+    (IPFILE, "pysrc_merge_gen.v", "", " Model.Merge Model.SrcPreludeSRCE Model.SrcPreludeMerge",
+     [("IPRange", "cidrs", {}), (None, "cidr_merge", {"ip_addrs": "list mitem"})]),
+    # C11: the generator IPNetwork.subnet (prologue + one resumption), next / previous, iter_hosts
+    (IPFILE, "pysrc_subnet_gen.v", "", " Model.PySlice Model.ListLike Model.SrcPreludeSRCE",
+     [("IPNetwork", "subnet:start", {"prefixlen": "int", "count": "optint", "fmt": "optint"}), ("IPNetwork", "subnet:next", {}),
+      ("IPNetwork", "next", {"step": "int"}), ("IPNetwork", "previous", {"step": "int"}), ("IPNetwork", "iter_hosts", {})]),
+    # C10: the generator iter_iprange (its arguments are IPAddress objects), IPListMixin.__iter__ / __nonzero__ for the receiver
+    # classes IPNetwork and IPRange
+    (IPFILE, "pysrc_iter_gen.v", "", " Model.PySlice Model.ListLike Model.SrcPreludeSRCE",
+     [(None, "iter_iprange:start", {"start": "obj", "end": "obj", "step": "int"}), (None, "iter_iprange:next", {})] +
+     [(c, m, {}) for c in ("IPNetwork", "IPRange") for m in ("__iter__", "__nonzero__")]),
+    # C04: the three matching functions (`ip` an IPAddress object, `cidrs` a list of IPNetwork objects) and IPListMixin.__contains__
+    # (`:mixin` = the definition of IPListMixin itself for a receiver class that overrides it)
+    (IPFILE, "pysrc_match_gen.v", "", " Model.Contains Model.SrcPreludeSRCE Model.SrcPreludeMatch",
+     [(c, "__contains__:mixin", {"other": "operand"}) for c in ("IPNetwork", "IPRange")] +
+     [(None, f, {"ip": "obj", "cidrs": "list net"}) for f in ("all_matching_cidrs", "smallest_matching_cidr", "largest_matching_cidr")]),
+    # C12: the rich comparisons and __hash__ of BaseIP for the three receiver classes, IPRange.sort_key (core.num_bits = py_num_bits)
+    (IPFILE, "pysrc_cmp_gen.v", "", " Model.SrcPreludeSRCE Model.SrcPreludeCmp",
+     [("IPRange", "sort_key", {})] +
+     [(c, m, {"other": "operand"}) for c in ("IPAddress", "IPNetwork", "IPRange")
+      for m in ("__eq__", "__ne__", "__lt__", "__le__", "__gt__", "__ge__")] +
+     [(c, "__hash__", {}) for c in ("IPAddress", "IPNetwork", "IPRange")] + [("IPAddress", "__long__", {})]),
+    # C15 (and C14 for __hex__): the IPAddress accessors that hand the value to a function of the strategy module (MODULE_FUNCS)
+    (IPFILE, "pysrc_ipviews_gen.v", "", " Base.PyStr Model.SrcPreludeSRCE Model.SrcPreludeViews",
+     [("IPAddress", "bits", {"word_sep": "optstr"})] +
+     [("IPAddress", m, {}) for m in ("bin", "words", "packed", "reverse_dns", "__bytes__", "__hex__")]),
+]
+# functions of the strategy module called as `self._module.<f>(..)`: NOT translated here (netaddr/strategy/ipv4.py, ipv6.py are
+# another unit's); <f> -> (prelude symbol = the hand model of Model/Codec.v by version, parameter types, result type)
+MODULE_FUNCS = {"int_to_bits": ("py_mod_int_to_bits", ("int", "optstr"), "str"), "int_to_bin": ("py_mod_int_to_bin", ("int",), "str"),
+                "int_to_words": ("py_mod_int_to_words", ("int",), "list int"), "int_to_packed": ("py_mod_int_to_packed", ("int",), "list int"),
+                "int_to_arpa": ("py_mod_int_to_arpa", ("int",), "str")}
+UNITS = UNITS + SRCE_UNITS
+FILES = FILES + tuple(u[1] for u in SRCE_UNITS)
+FUEL.update({(None, "cidr_merge", 2): ("len(ranges)", 1)})      # the backward scan runs at most len(ranges) - 1 times
+for _k in (("IPRange", "sort_key"), ("IPListMixin", "__contains__")):      # no longer skipped: units pysrc_cmp_gen.v, pysrc_match_gen.v
+    SKIP.pop(_k, None)
+SRCE_TYPES = {"mitem": "mitem", "rtup": "rtuple", "ipstr": "Z", "optnet": "(option net)",
+              "objv": "(Z * Z)", "hashfn": "(list Z -> Z)",
+              "optstr": "(option string)"}   # new value types -> their Coq types (objv: an IPAddress object carried through a loop as its pair)
+# declared types of locals that start as None: (receiver, function, local) -> type (`optnet`: None or an IPNetwork object)
+SRCE_LOCALS = {(None, "smallest_matching_cidr", "match"): "optnet", (None, "largest_matching_cidr", "match"): "optnet"}
 
 EXN = ("AddrFormatError", "AddrConversionError", "ValueError", "TypeError", "IndexError", "KeyError", "StructError",
        "NotRegisteredError", "AttributeError", "OverflowError")
@@ -1982,6 +2077,600 @@ class Fn:
             self.render(self.ir, "  ", self.outcome, self.optional))
 
 
+# ---- SRCE: class FnE -- the additional constructs of the SRCE units (documented in the docstring paragraph "SRCE").  Everything
+# here is additive: a construct FnE does not recognise goes to the base class unchanged, and only the units of SRCE_UNITS use FnE.
+COQTY.update(SRCE_TYPES)
+RESERVED |= set("mitem MNet MRange rtuple py_index py_setitem py_delitem py_net_of_addr py_net_of_cidr_text py_gen_take "
+                "py_sort_ranges nth_o set_nth del_nth py_norm_index py_sorted_nets py_num_bits hash_ "
+                "py_tuple_eq py_tuple_ne py_tuple_lt py_tuple_le py_tuple_gt py_tuple_ge py_int_to_bytes py_fmt_hex "
+                "py_mod_int_to_bits py_mod_int_to_bin py_mod_int_to_words py_mod_int_to_packed py_mod_int_to_arpa".split())
+TUPLE_CMP = {ast.Eq: "py_tuple_eq", ast.NotEq: "py_tuple_ne", ast.Lt: "py_tuple_lt", ast.LtE: "py_tuple_le", ast.Gt: "py_tuple_gt",
+             ast.GtE: "py_tuple_ge"}
+
+
+def core_num_bits_ok():
+    """is netaddr.core.num_bits still `def num_bits(int_val): return int_val.bit_length()` (first definition, inside the module's
+    `try:` that probes for int.bit_length; the fallback loop under `except AttributeError` is dead on every supported Python)?"""
+    fn = "netaddr/core.py"
+    tree = ast.parse(open(os.path.join(REPO, fn), encoding="utf-8").read())
+    tries = [t for t in tree.body if isinstance(t, ast.Try) and any(isinstance(n, ast.FunctionDef) and n.name == "num_bits" for n in ast.walk(t))]
+    defs = [n for n in ast.walk(tree) if isinstance(n, ast.FunctionDef) and n.name == "num_bits"]
+    other = [n for n in ast.walk(tree) if isinstance(n, ast.Name) and n.id == "num_bits" and isinstance(n.ctx, ast.Store)]
+    ok = len(tries) == 1 and not other and 1 <= len(defs) <= 2
+    if ok:
+        d = [st for st in tries[0].body if isinstance(st, ast.FunctionDef) and st.name == "num_bits"]
+        hs = tries[0].handlers
+        ok = (len(d) == 1 and len(hs) == 1 and dotted(hs[0].type) == "AttributeError" and not tries[0].orelse and not tries[0].finalbody
+              and all(n in d or any(n in ast.walk(h) for h in hs) for n in defs))
+    if ok:
+        body = [st for st in d[0].body if not (isinstance(st, ast.Expr) and isinstance(st.value, ast.Constant))]
+        a = d[0].args
+        ok = (len(a.args) == 1 and not (a.vararg or a.kwarg or a.kwonlyargs or a.defaults) and not d[0].decorator_list and len(body) == 1
+              and isinstance(body[0], ast.Return) and isinstance(body[0].value, ast.Call) and not body[0].value.args
+              and not body[0].value.keywords and dotted(body[0].value.func) == a.args[0].arg + ".bit_length")
+    if not ok:
+        bad(defs[0] if defs else None, "core.num_bits is not `return int_val.bit_length()` the way the translator assumes", fn)
+    return True
+_is_value_base, _assigned_names_base = is_value, assigned_names
+
+
+def is_value(t):
+    return t in SRCE_TYPES or _is_value_base(t)
+
+
+def assigned_names(stmts):
+    """as before, plus the lists changed by `l[i] = e` / `del l[i]`"""
+    base, extra = _assigned_names_base(stmts), []
+    for st in stmts:
+        for n in ast.walk(st):
+            if isinstance(n, ast.Subscript) and isinstance(n.ctx, (ast.Store, ast.Del)) and isinstance(n.value, ast.Name):
+                if n.value.id not in base and n.value.id not in extra:
+                    extra.append(n.value.id)
+    return base + extra
+
+
+class FnE(Fn):
+    GEN_STATE_TYPES = ("int", "bool", "net", "ipstr", "optint")
+
+    def __init__(self, tr, recv, name, ptypes):
+        self.variant, self.yield_ids, self.gen_state = name.partition(":")[2], set(), None
+        if self.variant == "next":          # one resumption of a generator: its parameters are the state the prologue leaves
+            ptypes = dict(tr.get(recv, name.partition(":")[0] + ":start").gen_state)
+        super().__init__(tr, recv, name, ptypes)
+
+    # ---- generators: `<prologue>; while c: <body>; yield e` -> the two definitions <f>_start / <f>_next
+    def prepare(self, f):
+        if self.variant == "mixin":         # the definition of IPListMixin itself, for a receiver class that overrides it
+            r = self.mod.lookup("IPListMixin", self.pyname)
+            if r is None or r[2]:
+                bad(f, "IPListMixin.%s not found" % self.pyname)
+            self.owner = r[0]
+            return r[1]
+        if self.variant not in ("start", "next"):
+            return f
+        import copy
+        f = copy.deepcopy(f)
+        doc = f.body[:1] if (f.body and isinstance(f.body[0], ast.Expr) and isinstance(f.body[0].value, ast.Constant)
+                             and isinstance(f.body[0].value.value, str)) else []
+        stmts = f.body[len(doc):]
+        loop = stmts[-1] if stmts else None
+        ys = [n for n in ast.walk(f) if isinstance(n, (ast.Yield, ast.YieldFrom))]
+        if not (isinstance(loop, ast.While) and not loop.orelse and len(ys) == 1 and isinstance(ys[0], ast.Yield) and ys[0].value is not None
+                and isinstance(loop.body[-1], ast.Expr) and loop.body[-1].value is ys[0]):
+            bad(f, "generator other than `<prologue>; while c: <body>; yield e` (one yield, last statement of the loop, which ends the function)")
+        if any(isinstance(n, (ast.While, ast.For, ast.Continue, ast.Return, ast.Try)) for st in loop.body for n in ast.walk(st)):
+            bad(loop, "loop / continue / return / try inside the loop of a generator")
+        prologue = stmts[:-1]
+        if any(isinstance(n, (ast.While, ast.For)) for st in prologue for n in ast.walk(st)):
+            bad(f, "loop in the prologue of a generator")
+        bound = [a.arg for a in f.args.args if a.arg != "self"] + assigned_names(prologue)
+        state = [x for x in loaded_names([loop.test] + loop.body) if x in bound]
+        if self.variant == "start":
+            ret = ast.copy_location(ast.Return(value=None), loop)
+            ret.gen_state = state
+            f.body = doc + prologue + [ret]
+            return ast.fix_missing_locations(f)
+
+        class B(ast.NodeTransformer):       # (no nested loop: every break belongs to the generator's loop)
+            def visit_Break(self, n):
+                return ast.copy_location(ast.Return(value=None), n)
+        y = loop.body[-1]
+        ret = ast.copy_location(ast.Return(value=y.value.value), y)
+        ret.gen_yield = state
+        if isinstance(ret.value, ast.Name):
+            self.yield_ids = {id(ret.value)}
+        body = [B().visit(st) for st in loop.body[:-1]] + [ret]
+        f.body = doc + [ast.copy_location(ast.If(test=loop.test, body=body, orelse=[]), loop), ast.copy_location(ast.Return(value=None), loop)]
+        f.args.args = [a for a in f.args.args if a.arg == "self"] + [ast.copy_location(ast.arg(arg=x), f) for x in state]
+        f.args.defaults = []
+        return ast.fix_missing_locations(f)
+
+    def state_tuple(self, node, names, env):
+        out = []
+        for x in names:
+            ty = env.get(x, (None,))[0]
+            if ty not in self.GEN_STATE_TYPES:
+                bad(node, "generator state variable %s is %s" % (x, "unbound on some path" if ty is None else show(ty)))
+            if self.variant == "next" and dict(self.params_declared).get(x) != ty:
+                bad(node, "generator state variable %s changes its type in the loop" % x)
+            out.append((x, ty, env[x][1]))
+        return out
+
+    def what(self):
+        if self.variant not in ("start", "next", "mixin"):
+            return super().what()
+        w = self.pyname if self.recv is None else "%s.%s" % (self.owner, self.pyname)
+        w += {"start": ", generator prologue", "next": ", one resumption of the generator", "mixin": ""}[self.variant]
+        return w + (", receiver class %s" % self.recv if self.recv is not None and self.owner != self.recv else "")
+
+    def owned(self, x):
+        """as Fn.owned; the yielded object may also be named (it leaves the function there)"""
+        bases = {id(n.value) for n in ast.walk(self.f) if isinstance(n, ast.Attribute)} | self.yield_ids
+        bases |= {id(n.value) for n in ast.walk(self.f) if isinstance(n, ast.Return) and isinstance(n.value, ast.Name)}
+        binds = [st for st in ast.walk(self.f) if isinstance(st, (ast.Assign, ast.AugAssign, ast.For, ast.With, ast.NamedExpr))
+                 and any(isinstance(n, ast.Name) and n.id == x and isinstance(n.ctx, ast.Store) and id(n) not in bases for n in ast.walk(st))]
+        return (all(id(st) in self.freshbind for st in binds) and x not in [a.arg for a in self.f.args.args]
+                and all(id(n) in bases for n in ast.walk(self.f) if isinstance(n, ast.Name) and n.id == x and isinstance(n.ctx, ast.Load)))
+
+    # ---- helpers
+    @staticmethod
+    def net_state(t):
+        return "(nver %s) (width (nver %s)) (nval %s) (nplen %s)" % (t, t, t, t)
+
+    def inline_pre(self, pre, tail):
+        """text of `tail` (an outcome term) after the hoisted items `pre`, on one line"""
+        for it in reversed(pre):
+            tail = ("(if %s then Raise %s else %s)" % (it[1], it[2], tail)) if it[0] == "guard" else "(do %s <- %s; %s)" % (it[1], it[2], tail)
+        return tail
+
+    def boolop_sc(self, node, env):
+        """`a and b` / `a or b` whose later operands can raise: short-circuit evaluation in `outcome`"""
+        isand, v0, refined = isinstance(node.op, ast.And), node.values[0], None
+        if isand and self.is_not_none(v0, env):          # `x is not None and ..` for x : None or an IPNetwork: x is the object from there on
+            refined, env = (env[v0.left.id][1], self.fresh()), dict(env)
+            env[v0.left.id] = ("net", refined[1])
+            first = None
+        else:
+            first = self.bool_(node.values[0], env)
+        parts = []
+        for x in node.values[1:]:
+            saved, self.pre, nh, self.nohoist = self.pre, [], self.nohoist, 0
+            try:
+                t = self.bool_(x, env)
+            finally:
+                inner, self.pre, self.nohoist = self.pre, saved, nh
+            parts.append((inner, t))
+        acc = None
+        for inner, t in reversed(parts):
+            tail = "Ok %s" % t if acc is None else ("(if %s then %s else Ok false)" if isand else "(if %s then Ok true else %s)") % (t, acc)
+            acc = self.inline_pre(inner, tail)
+        if refined:
+            return ("out", "bool", "(match %s with Some %s => %s | None => Ok false end)" % (refined[0], refined[1], acc))
+        return ("out", "bool", ("(if %s then %s else Ok false)" if isand else "(if %s then Ok true else %s)") % (first, acc))
+
+    @staticmethod
+    def is_not_none(t, env):
+        return (isinstance(t, ast.Compare) and len(t.ops) == 1 and isinstance(t.ops[0], ast.IsNot) and isinstance(t.left, ast.Name)
+                and isinstance(t.comparators[0], ast.Constant) and t.comparators[0].value is None and env.get(t.left.id, ("",))[0] == "optnet")
+
+    def setter_of(self, cls, attr, node):
+        """(defining class, setter method name, state field) of `attr = property(lambda self: self._<field>, <setter>, ..)`"""
+        for c in self.tr.modof(cls).ancestors(cls):
+            cd = self.tr.modof(cls).classes.get(c)
+            for st in (cd.body if cd else []):
+                if (isinstance(st, ast.Assign) and len(st.targets) == 1 and isinstance(st.targets[0], ast.Name) and st.targets[0].id == attr):
+                    v = st.value
+                    if (isinstance(v, ast.Call) and dotted(v.func) == "property" and len(v.args) >= 2 and isinstance(v.args[0], ast.Lambda)
+                            and isinstance(v.args[1], ast.Name) and len(v.args[0].args.args) == 1
+                            and dotted(v.args[0].body) in ("%s._value" % v.args[0].args.args[0].arg, "%s._prefixlen" % v.args[0].args.args[0].arg)):
+                        return c, v.args[1].id, v.args[0].body.attr
+                    bad(node, "%s.%s is not `property(lambda self: self._<field>, <setter>, ..)`" % (c, attr))
+        bad(node, "no property %s in %s" % (attr, cls))
+
+    # ---- expressions
+    def rhs(self, node, env):
+        if isinstance(node, ast.Tuple) and isinstance(node.ctx, ast.Load):
+            items = [self.ex(x, env) for x in node.elts]
+            tys = [ty for ty, _ in items]
+            if tys == ["int"] * 3:          # a range tuple without / with its original object: Merge.rtuple
+                return ("rtup", "(%s, None)" % ", ".join(t for _, t in items))
+            if tys == ["int", "int", "int", "mitem"]:
+                return ("rtup", "(%s, Some %s)" % (", ".join(t for _, t in items[:3]), items[3][1]))
+            bad(node, "tuple other than (int, int, int[, IPNetwork-or-IPRange object])")
+        if isinstance(node, ast.BoolOp) and isinstance(node.op, ast.And) and self.is_not_none(node.values[0], env):
+            return self.boolop_sc(node, env)
+        if isinstance(node, ast.Compare) and len(node.ops) == 1 and type(node.ops[0]) in TUPLE_CMP:
+            snap = self.snapshot()              # comparison of two tuples of ints (the results of key() / sort_key()): lexicographic
+            try:
+                (lty, l), (rty, r) = self.ex(node.left, env), self.ex(node.comparators[0], env)
+            except Untranslatable:
+                lty = rty = None
+            if lty == "tuple" and rty == "tuple":
+                return ("bool", "(%s %s %s)" % (TUPLE_CMP[type(node.ops[0])], l, r))
+            self.restore(snap)
+        if isinstance(node, ast.Compare) and len(node.ops) == 1 and isinstance(node.ops[0], (ast.In, ast.NotIn)):
+            snap = self.snapshot()              # x in y / x not in y for an IPNetwork-valued y: its translated __contains__
+            try:
+                (lty, l), (rty, r) = self.ex(node.left, env), self.ex(node.comparators[0], env)
+            except Untranslatable:
+                lty = rty = None
+            if rty == "net" and lty in ("obj", "net"):
+                opnd = "(OAddr %s %s)" % (l[0], l[2]) if lty == "obj" else "(ONet (nver %s) (nval %s) (nplen %s))" % (l, l, l)
+                res = self.generated(node, "IPNetwork", "__contains__", self.net_state(r), [("operand", opnd)])
+                if isinstance(node.ops[0], ast.In):
+                    return res
+                h = self.fresh()
+                self.hoist(node, ("bind", h, res[2]))
+                return ("bool", "(negb %s)" % h)
+            self.restore(snap)
+        if isinstance(node, ast.BoolOp):
+            snap = self.snapshot()
+            try:
+                return super().rhs(node, env)
+            except Untranslatable as e:
+                if "can raise under and/or" not in str(e):
+                    raise
+                self.restore(snap)
+                return self.boolop_sc(node, env)
+        if (isinstance(node, ast.BinOp) and isinstance(node.op, ast.Mod) and isinstance(node.left, ast.Constant)
+                and isinstance(node.left.value, str) and re.fullmatch(r"[ -$&-~]*%x", node.left.value) and '"' not in node.left.value):
+            e = self.int_(node.right, env)       # '<text>%x' % e for an int e: the text followed by e in lower-case hexadecimal
+            return ("out", "str", "(py_fmt_hex \"%s\"%%string %s)" % (node.left.value[:-2], e))
+        if (isinstance(node, ast.BinOp) and isinstance(node.op, ast.FloorDiv) and isinstance(node.right, ast.BinOp)
+                and isinstance(node.right.op, ast.Pow) and (const_int(node.right.left) or 0) > 0):
+            a, b = self.int_(node.left, env), self.int_(node.right, env)     # a // k ** e: the divisor is never 0 (e >= 0 is guarded by the ** arm)
+            return ("int", ARITH[ast.FloorDiv] % (a, b))
+        if isinstance(node, ast.Attribute):
+            head, _, tail = (dotted(node) or "").partition(".")
+            ty = env.get(head, (None,))[0] if head else None
+            if ty == "mitem" and "." not in tail:          # a property both classes have: by the class of the object
+                h, hv, hs, he = self.fresh(), self.fresh(), self.fresh(), self.fresh()
+                a = self.generated(node, "IPNetwork", tail, self.net_state(h), [])
+                b = self.generated(node, "IPRange", tail, "%s (width %s) %s %s" % (hv, hv, hs, he), [])
+                if a[0] == "out" or b[0] == "out" or a[0] != b[0] or a[0] not in ("int", "bool"):
+                    bad(node, "attribute %s of an IPNetwork-or-IPRange object" % tail)
+                return (a[0], "(match %s with MNet %s => %s | MRange %s %s %s => %s end)" % (env[head][1], h, a[1], hv, hs, he, b[1]))
+            if ty == "obj" and tail:
+                o = env[head][1]
+                if tail == "_value":
+                    return ("int", o[2])
+                r = self.tr.modof("IPAddress").lookup("IPAddress", tail) if "." not in tail else None
+                if r and r[2]:
+                    return self.generated(node, "IPAddress", tail, " ".join(o[:3]), [])
+                bad(node, "attribute %s of an IPAddress" % tail)
+        return super().rhs(node, env)
+
+    def subscript(self, node, env):
+        if isinstance(node.slice, ast.Slice):
+            return super().subscript(node, env)
+        snap = self.snapshot()
+        ty, t = self.ex(node.value, env)
+        k = const_int(node.slice)
+        if ty == "rtup":
+            if k in (0, 1, 2):
+                return ("int", ("(fst (fst (fst %s)))", "(snd (fst (fst %s)))", "(snd (fst %s))")[k] % t)
+            x = node.value.id if isinstance(node.value, ast.Name) else None
+            if k == 3 and x in env.get("@rt4", {}):
+                return ("mitem", env["@rt4"][x])
+            bad(node, "component of a range tuple other than [0], [1], [2], or [3] under `if len(t) == 4`")
+        if is_list(ty) and ty[1].find().t is not None:
+            i = self.int_(node.slice, env)
+            h = self.fresh()
+            self.hoist(node, ("bind", h, "(py_index %s %s)" % (t, i)))
+            e = ty[1].find().t
+            return ("obj", self.objvar(h)) if e == "obj" else (e, h)
+        self.restore(snap)
+        return super().subscript(node, env)
+
+    def callfn(self, node, name, env):
+        if node.keywords:
+            bad(node, "keyword arguments in a call of %s" % name)
+        d = self.tr.get(None, name, node)
+        args = [self.ex(x, env) for x in node.args]
+        if len(args) == len(d.params):       # an IPAddress object where an IPNetwork is declared: IPNetwork(<IPAddress>) = its host network
+            args = [("net", "(py_net_of_addr %s)" % t[3]) if (ty == "obj" and pty == "net") else (ty, t)
+                    for (ty, t), (_, pty) in zip(args, d.params)]
+        return self.generated(node, None, name, "", args)
+
+    def listcomp(self, node, env):
+        g = node.generators
+        if (len(g) == 1 and not g[0].ifs and not g[0].is_async and isinstance(g[0].target, ast.Name) and isinstance(node.elt, ast.Call)
+                and dotted(node.elt.func) == "IPNetwork" and "IPNetwork" not in env and "IPNetwork" in self.mod.classes
+                and len(node.elt.args) == 1 and not node.elt.keywords and isinstance(node.elt.args[0], ast.Name)
+                and node.elt.args[0].id == g[0].target.id):
+            ty, t = self.ex(g[0].iter, env)     # [IPNetwork(x) for x in xs] for IPNetwork-valued xs: copies (the identity on the model)
+            if is_list(ty) and ty[1].find().t == "net":
+                return (("list", Cell("net")), t)
+            bad(node, "[IPNetwork(x) for x in xs] over %s" % show(ty))
+        return super().listcomp(node, env)
+
+    def call(self, node, env):
+        f = node.func
+        if (isinstance(f, ast.Attribute) and f.attr in MODULE_FUNCS and dotted(f.value) == "self._module" and not node.keywords
+                and "self._module.version" in self.attrs and "self" not in env):
+            sym, ptys, rty = MODULE_FUNCS[f.attr]        # self._module.<f>(..): the strategy module's function, a prelude symbol by version
+            args = [self.ex(x, env) for x in node.args]
+            if len(args) != len(ptys) or any(ty != pty for (ty, _), pty in zip(args, ptys)):
+                bad(node, "argument list of self._module.%s" % f.attr)
+            return ("out", parse_type(rty), "(%s)" % " ".join([sym, self.attrs["self._module.version"][1]] + [t for _, t in args]))
+        if (isinstance(f, ast.Attribute) and f.attr == "to_bytes" and len(node.args) == 2 and not node.keywords
+                and isinstance(node.args[1], ast.Constant) and node.args[1].value == "big"):
+            v, n = self.int_(f.value, env), self.int_(node.args[0], env)     # int.to_bytes(n, 'big'): OverflowError when it does not fit
+            return ("out", ("list", Cell("int")), "(py_int_to_bytes %s %s)" % (v, n))
+        if (isinstance(f, ast.Name) and f.id == "num_bits" and f.id not in env and self.mod.imports.get("num_bits") == "netaddr.core.num_bits"
+                and len(node.args) == 1 and not node.keywords and core_num_bits_ok()):
+            return ("int", "(py_num_bits %s)" % self.int_(node.args[0], env))      # int.bit_length: SrcPreludeCmp.py_num_bits
+        if self.builtin_call(node, "hash", env, 1):
+            ty, t = self.ex(node.args[0], env)   # hash(<tuple of ints>): CPython's hash is not modelled; it is the parameter `hash_`
+            if ty != "tuple":
+                bad(node, "hash() of %s" % show(ty))
+            if ("hash_", "hashfn") not in self.statevars:
+                self.coqname(node, "hash")
+                self.statevars.append(("hash_", "hashfn"))
+            return ("int", "(hash_ %s)" % t)
+        if self.builtin_call(node, "sorted", env, 1):
+            ty, t = self.ex(node.args[0], env)  # sorted(l) for a list of IPNetwork objects: SrcPreludeMatch.py_sorted_nets
+            if not (is_list(ty) and ty[1].find().t == "net"):
+                bad(node, "sorted() of %s" % show(ty))
+            return (("list", Cell("net")), "(py_sorted_nets %s)" % t)
+        if (isinstance(f, ast.Name) and f.id == "IPAddress" and f.id not in env and len(node.args) == 1 and not node.keywords
+                and isinstance(node.args[0], ast.Name) and env.get(node.args[0].id, ("",))[0] == "obj"):
+            return env[node.args[0].id]          # IPAddress(x) of an IPAddress-valued x: a copy, (version, value) unchanged
+        if (isinstance(f, ast.Attribute) and f.attr == "int_to_str" and dotted(f.value) == "self._module" and self.recv
+                and len(node.args) == 1 and not node.keywords):
+            return ("ipstr", self.int_(node.args[0], env))       # the text of an address, kept as the integer it is the text of
+        if (isinstance(f, ast.Attribute) and dotted(f) == "self.__class__" and self.recv == "IPNetwork" and len(node.args) == 2
+                and not node.keywords and isinstance(node.args[0], ast.BinOp) and isinstance(node.args[0].op, ast.Mod)
+                and isinstance(node.args[0].left, ast.Constant) and node.args[0].left.value == "%s/%d"
+                and isinstance(node.args[0].right, ast.Tuple) and len(node.args[0].right.elts) == 2):
+            a, p = node.args[0].right.elts       # Class('%s/%d' % (address, prefixlen), version): SrcPreludeSRCE.py_net_of_cidr_text
+            ver = self.int_(node.args[1], env)
+            aty, at = self.ex(a, env)
+            if aty == "obj":                     # str(IPAddress): the text is of the object's own family
+                self.hoist(node, ("guard", "(negb (%s =? %s))" % (at[0], ver), "Unsupported"))
+                val = at[2]
+            elif aty == "ipstr":
+                val = at
+            else:
+                bad(node, "'%%s/%%d' %% (x, ..) with x neither an IPAddress nor module.int_to_str(..)")
+            return ("out", "net", "(py_net_of_cidr_text %s %s %s)" % (ver, val, self.int_(p, env)))
+        if (isinstance(f, ast.Attribute) and isinstance(f.value, ast.Name) and f.value.id in env and f.value.id != "self"
+                and not node.keywords and (env[f.value.id][0] == "net" or (isinstance(env[f.value.id][0], tuple) and env[f.value.id][0][0] == "opnd"))):
+            ty, t = env[f.value.id]              # x.m(..) for an IPNetwork-valued variable or a refined operand: a translated method
+            if ty == "net":
+                cls, state = "IPNetwork", self.net_state(t)
+            else:
+                if ty[1] not in KINDCLASS:
+                    bad(node, "method of an operand that is no BaseIP object")
+                cls, fl = KINDCLASS[ty[1]], ty[2]
+                state = " ".join([fl["ver"], "(width %s)" % fl["ver"]] + [fl[x] for x in dict(OPERAND)[ty[1]][1:]])
+            r = self.tr.modof(cls).lookup(cls, f.attr)
+            if r and not r[2]:
+                return self.generated(node, cls, f.attr, state, [("int", self.int_(x, env)) for x in node.args])
+        return super().call(node, env)
+
+    # ---- statements
+    def block(self, stmts, env, k, after):
+        for key, val in list(env.items()):       # a parameter declared `obj`: (version, width, value, the pair itself)
+            if not key.startswith("@") and val[0] in ("obj", "objv") and isinstance(val[1], str):
+                env[key] = ("obj", self.objvar(val[1]))
+        if stmts and isinstance(stmts[0], ast.Try) and self.is_notimplemented_try(stmts[0]):
+            return self.try_notimplemented(stmts[0], env)
+        if stmts and isinstance(stmts[0], ast.Delete):
+            s, rest = stmts[0], list(stmts[1:])
+            tgt = s.targets[0] if len(s.targets) == 1 else None
+            if not (isinstance(tgt, ast.Subscript) and isinstance(tgt.value, ast.Name) and is_list(env.get(tgt.value.id, ("",))[0])
+                    and not isinstance(tgt.slice, ast.Slice)):
+                bad(s, "del other than `del l[i]` on a list")
+            l = tgt.value.id
+            lty, lt = env[l]
+            i = self.int_(tgt.slice, env)
+            pre = self.take_pre()
+            cn, env2 = self.bind_local(s, l, lty, env)
+            return self.wrap(pre, ("bind", cn, "(py_delitem %s %s)" % (lt, i), self.block(rest, env2, k, after)))
+        return super().block(stmts, env, k, after)
+
+    def loop(self, s, rest, env, k, after):
+        env = dict(env)                          # an IPAddress object read inside a loop is carried as the pair (version, value)
+        for x in loaded_names(([s.test] if isinstance(s, ast.While) else []) + s.body):
+            if x in env and env[x][0] == "obj" and not isinstance(env[x][1], str):
+                env[x] = ("objv", env[x][1][3])
+        return super().loop(s, rest, env, k, after)
+
+    @staticmethod
+    def is_notimplemented_try(s):
+        h = s.handlers[0] if len(s.handlers) == 1 else None
+        return (h is not None and not s.orelse and not s.finalbody and len(s.body) == 1 and isinstance(s.body[0], ast.Return)
+                and s.body[0].value is not None and len(h.body) == 1 and isinstance(h.body[0], ast.Return)
+                and isinstance(h.body[0].value, ast.Name) and h.body[0].value.id == "NotImplemented")
+
+    def try_notimplemented(self, s, env):
+        """try: return <e> / except (AttributeError, TypeError): return NotImplemented, where <e> reads a parameter declared `operand`:
+        for the three BaseIP kinds <e> must be translated without anything that can raise (then the handler is dead and the
+        statement is `return <e>`); for anything else the attribute read raises, the method answers NotImplemented and Python goes
+        on to the reflected operation: out of scope, `Raise Unsupported`."""
+        h = s.handlers[0]
+        hs = h.type.elts if isinstance(h.type, ast.Tuple) else [h.type]
+        if (not all(isinstance(c, ast.Name) and c.id in EXN and c.id not in env and not self.mod.toplevel(c.id) for c in hs)
+                or "AttributeError" not in [c.id for c in hs] or "NotImplemented" in env or self.mod.toplevel("NotImplemented")
+                or env["@mut"] or env["@break"] is not None):
+            bad(s, "try statement other than `try: return <e> / except (AttributeError, ..): return NotImplemented`")
+        ops = [x for x in loaded_names(s.body) if env.get(x, ("",))[0] == "operand"]
+        if len(ops) != 1:
+            bad(s, "`try: return <e> / except ..: return NotImplemented` that does not read exactly one operand parameter")
+        x, arms = ops[0], []
+        for kind, fields in OPERAND:
+            if kind == "OOther":
+                arms.append((kind, [], ("raise", "Unsupported")))
+                continue
+            aenv = dict(env)
+            names = [self.coqname(s, "%s_%s" % (x, f)) for f in fields]
+            aenv[x] = (("opnd", kind, dict(zip(fields, names))), None)
+            r = self.rhs(s.body[0].value, aenv)
+            if r[0] == "out" or self.pre or not (r[0] in ("int", "bool") or is_value(r[0])):
+                bad(s, "the body of `try: return <e> / except ..: return NotImplemented` can raise (or is no value) for a %s operand" % kind)
+            arms.append((kind, names, self.leaf(aenv, r[0], r[1])))
+        return ("omatch", env[x][1], arms)
+
+    def return_(self, s, env):
+        if getattr(s, "gen_state", None) is not None:        # the end of a generator's prologue: the state its loop starts in
+            st = self.state_tuple(s, s.gen_state, env)
+            self.gen_state = [(x, ty) for x, ty, _ in st]
+            return self.leaf(env, tuple_type([ty for _, ty, _ in st]), tuple_term([t for _, _, t in st]))
+        if getattr(s, "gen_yield", None) is not None:        # `yield e`: (e, the state the next resumption starts in)
+            ety, et = self.ex(s.value, env)
+            if ety == "obj":
+                et = et[3]
+            elif ety not in ("net", "int"):
+                bad(s, "yield of a %s value" % show(ety))
+            st = self.state_tuple(s, s.gen_yield, env)
+            ir = self.leaf(env, ("tup", (ety, tuple_type([ty for _, ty, _ in st]))), "(%s, %s)" % (et, tuple_term([t for _, _, t in st])))
+            return self.wrap(self.take_pre(), ir)
+        return super().return_(s, env)
+
+    @property
+    def params_declared(self):
+        return [(x, ty) for x, ty in zip([a.arg for a in self.f.args.args if a.arg != "self"], [ty for _, ty in self.params])]
+
+    def assign(self, s, env, go):
+        tgt = s.targets[0] if isinstance(s, ast.Assign) and len(s.targets) == 1 else s.target if isinstance(s, ast.AugAssign) else None
+        if (isinstance(s, ast.Assign) and isinstance(tgt, ast.Name)
+                and SRCE_LOCALS.get((self.recv, self.name, tgt.id)) == "optnet"):
+            if isinstance(s.value, ast.Constant) and s.value.value is None:     # a local declared `None or an IPNetwork object`
+                cn, env = self.bind_local(tgt, tgt.id, "optnet", env, s.value)
+                return ("let", cn, "None", go(env))
+            ty, t = self.ex(s.value, env)
+            if ty != "net":
+                bad(s, "assignment of %s to %s, declared None-or-IPNetwork" % (show(ty), tgt.id))
+            pre = self.take_pre()
+            cn, env = self.bind_local(tgt, tgt.id, "optnet", env, s.value)
+            return self.wrap(pre, ("let", cn, "(Some %s)" % t, go(env)))
+        if (isinstance(s, ast.Assign) and isinstance(tgt, ast.Subscript) and isinstance(tgt.value, ast.Name)
+                and is_list(env.get(tgt.value.id, ("",))[0]) and not isinstance(tgt.slice, ast.Slice)):
+            l = tgt.value.id                     # l[i] = e (the value first, then the index, as Python evaluates them)
+            lty, lt = env[l]
+            ty, t = self.ex(s.value, env)
+            unify(s, ("list", Cell(ty)), lty, "assigned item")
+            i = self.int_(tgt.slice, env)
+            pre = self.take_pre()
+            cn, env = self.bind_local(s, l, lty, env)
+            return self.wrap(pre, ("bind", cn, "(py_setitem %s %s %s)" % (lt, i, t), go(env)))
+        if (isinstance(s, ast.Assign) and isinstance(tgt, ast.Name) and isinstance(s.value, ast.Call) and isinstance(s.value.func, ast.Name)
+                and s.value.func.id == "IPAddress" and "IPAddress" not in env and len(s.value.args) == 1 and not s.value.keywords
+                and isinstance(s.value.args[0], ast.Name) and env.get(s.value.args[0].id, ("",))[0] == "obj"):
+            if tgt.id in ("self", "_ipv4", "_ipv6"):
+                bad(s, "rebinding of %s" % tgt.id)
+            self.coqname(tgt, tgt.id)            # x = IPAddress(y) for an IPAddress-valued y: a copy with the same (version, value)
+            env = dict(env)
+            env[tgt.id] = env[s.value.args[0].id]
+            env["@taint"] = env["@taint"] | {tgt.id} if s.value.args[0].id in env["@taint"] else env["@taint"] - {tgt.id}
+            return go(env)
+        if (isinstance(s, ast.AugAssign) and isinstance(tgt, ast.Name) and env.get(tgt.id, ("",))[0] == "net"
+                and isinstance(s.op, (ast.Add, ast.Sub))):
+            x, old = tgt.id, env[tgt.id][1]     # x += n / x -= n on an owned IPNetwork object: its translated __iadd__ / __isub__
+            self.freshbind.add(id(s))
+            if not self.owned(x):
+                bad(s, "in-place operator on %s, which may be visible under another name" % x)
+            num = self.int_(s.value, env)
+            r = self.generated(s, "IPNetwork", "__iadd__" if isinstance(s.op, ast.Add) else "__isub__", self.net_state(old), [("int", num)])
+            if r[0] != "out" or r[1] != "int":
+                bad(s, "unexpected translation of the in-place operator")
+            pre, h = self.take_pre(), self.fresh()
+            cn, env = self.bind_local(s, x, "net", env, s.value)
+            return self.wrap(pre, ("bind", h, r[2], ("let", cn, "{| nver := nver %s; nval := %s; nplen := nplen %s |}" % (old, h, old), go(env))))
+        if (isinstance(tgt, ast.Attribute) and isinstance(tgt.value, ast.Name) and env.get(tgt.value.id, ("",))[0] == "net"
+                and tgt.attr in ("value", "prefixlen")):
+            x, old = tgt.value.id, env[tgt.value.id][1]   # x.value = e / x.prefixlen = e: the property's setter, on an owned object
+            if not self.owned(x):
+                bad(s, "attribute assignment on %s, which may be visible under another name" % x)
+            cls, setter, field = self.setter_of("IPNetwork", tgt.attr, s)
+            cur = "(nval %s)" % old if field == "_value" else "(nplen %s)" % old
+            if isinstance(s, ast.AugAssign):
+                if type(s.op) not in (ast.Add, ast.Sub):
+                    bad(s, "augmented assignment operator")
+                e = ARITH[type(s.op)] % (cur, self.int_(s.value, env))
+            else:
+                e = self.int_(s.value, env)
+            state = self.net_state(old) if cls == "IPNetwork" else "(nver %s) (width (nver %s)) (nval %s)" % (old, old, old)
+            r = self.generated(s, cls, setter, state, [("sarg", "(SInt %s)" % e)])
+            if r[0] != "out" or r[1] != "int":
+                bad(s, "unexpected translation of the setter %s" % setter)
+            pre, h = self.take_pre(), self.fresh()
+            cn, env = self.bind_local(s, x, "net", env, s.value)
+            term = "{| nver := nver %s; nval := %s; nplen := %s |}" % (old, h if field == "_value" else "nval " + old, h if field == "_prefixlen" else "nplen " + old)
+            return self.wrap(pre, ("bind", h, r[2], ("let", cn, term, go(env))))
+        if (isinstance(s, ast.Assign) and isinstance(tgt, ast.Name) and isinstance(s.value, ast.Call)
+                and dotted(s.value.func) == "self.__class__" and len(s.value.args) == 2 and isinstance(s.value.args[0], ast.BinOp)):
+            self.freshbind.add(id(s))            # Class('%s/%d' % ..): a new object nobody else can see
+        return super().assign(s, env, go)
+
+    def expr_stmt(self, s, env, go):
+        v = s.value
+        if (isinstance(v, ast.Call) and isinstance(v.func, ast.Attribute) and isinstance(v.func.value, ast.Name)
+                and is_list(env.get(v.func.value.id, ("",))[0]) and not v.keywords):
+            l = v.func.value.id
+            lty, lt = env[l]
+            if v.func.attr == "extend" and len(v.args) == 1:     # l.extend(e) for a list e: l ++ e
+                ty, t = self.ex(v.args[0], env)
+                if not is_list(ty):
+                    bad(s, "extend() with %s" % show(ty))
+                unify(s, ty, lty, "extended list")
+                pre = self.take_pre()
+                cn, env = self.bind_local(s, l, lty, env)
+                if self.tainted(v.args[0], env):
+                    env["@taint"] = env["@taint"] | {l}
+                return self.wrap(pre, ("let", cn, "(%s ++ %s)" % (lt, t), go(env)))
+            if v.func.attr == "sort" and not v.args and lty[1].find().t == "rtup":
+                cn, env = self.bind_local(s, l, lty, env)            # l.sort() on a list of range tuples: SrcPreludeMerge.py_sort_ranges
+                return ("let", cn, "(py_sort_ranges %s)" % lt, go(env))
+        return super().expr_stmt(s, env, go)
+
+    def if_(self, s, rest, env, k, after):
+        t = s.test
+        if (isinstance(t, ast.Compare) and len(t.ops) == 1 and isinstance(t.ops[0], ast.Eq) and self.builtin_call(t.left, "len", env, 1)
+                and isinstance(t.left.args[0], ast.Name) and env.get(t.left.args[0].id, ("",))[0] == "rtup" and const_int(t.comparators[0]) == 4):
+            x, h = t.left.args[0].id, self.fresh()      # len(t) == 4 for a range tuple: does it still carry its original object?
+            yenv = dict(env)
+            yenv["@rt4"] = dict(env.get("@rt4", {}), **{x: h})
+            return ("omatch", "(snd %s)" % env[x][1], [("Some", [h], self.block(s.body + rest, yenv, k, after)),
+                                                       ("None", [], self.block(s.orelse + rest, env, k, after))])
+        if (isinstance(t, ast.Compare) and len(t.ops) == 1 and isinstance(t.ops[0], ast.Is) and isinstance(t.left, ast.Name)
+                and isinstance(t.comparators[0], ast.Constant) and t.comparators[0].value is None
+                and env.get(t.left.id, ("",))[0] == "optint"):
+            x, a = t.left.id, s.body[0] if len(s.body) == 1 else None   # `if x is None: x = <int default>`: from here on x is an int
+            if not (s.orelse == [] and isinstance(a, ast.Assign) and len(a.targets) == 1 and isinstance(a.targets[0], ast.Name)
+                    and a.targets[0].id == x):
+                bad(s, "`if %s is None:` followed by something other than `%s = <default>`" % (x, x))
+            old = env[x][1]
+            self.nohoist += 1
+            d = self.int_(a.value, env)
+            self.nohoist -= 1
+            cn, env2 = self.bind_local(a.targets[0], x, "int", env, a.value)
+            env2["@taint"] = env2["@taint"] | {x}
+            return ("let", cn, "(match %s with Some h0 => h0 | None => %s end)" % (old, d), self.block(rest, env2, k, after))
+        return super().if_(s, rest, env, k, after)
+
+    def isinstance_(self, s, t, neg, rest, env, k, after):
+        x = t.args[0].id if len(t.args) == 2 and isinstance(t.args[0], ast.Name) else None
+        if x is not None and env.get(x, ("",))[0] == "mitem" and not t.keywords:
+            cs = t.args[1].elts if isinstance(t.args[1], ast.Tuple) else [t.args[1]]
+            if not all(isinstance(c, ast.Name) for c in cs):
+                bad(s, "isinstance against something other than class names")
+            isnet, isrng = [any(self.isinst(s, kind, c.id) for c in cs) for kind in ("ONet", "ORng")]
+            yes, no = (s.orelse, s.body) if neg else (s.body, s.orelse)
+            if isnet == isrng:                   # the declared type (an IPNetwork or an IPRange object) decides the test
+                return self.block((yes if isnet else no) + rest, env, k, after)
+            h, hv, hs, he = self.fresh(), self.fresh(), self.fresh(), self.fresh()
+            nenv, renv = dict(env), dict(env)
+            nenv[x], renv[x] = ("net", h), (("opnd", "ORng", {"ver": hv, "s": hs, "e": he}), None)
+            return ("omatch", env[x][1], [("MNet", [h], self.block((yes if isnet else no) + rest, nenv, k, after)),
+                                          ("MRange", [hv, hs, he], self.block((yes if isrng else no) + rest, renv, k, after))])
+        return super().isinstance_(s, t, neg, rest, env, k, after)
+
+
+FN_CLASS = {u[1]: FnE for u in SRCE_UNITS}
+
+
 BY_MODULE = {}      # dotted module name -> the first translator made for its file (filled by generate())
 
 # ---- SRCD: the units of CTOR_FN_UNITS are read by the subclass CtorFn of Fn (harness/gen/pysrc_ctor.py); every other unit by Fn
@@ -2045,7 +2734,7 @@ def fn_class(out):
     if out in CTOR_FN_UNITS:
         from harness.gen import pysrc_ctor
         return pysrc_ctor.CtorFn
-    return Fn
+    return FN_CLASS.get(out, Fn)      # (SRCE, SRCF) a unit may use a subclass of Fn
 
 
 class Translator:
